@@ -280,7 +280,7 @@ class TokModel(IdentModel):
             v = A_(0)
             items = v.items if isinstance(v, It) else (v[1] if isinstance(v, tuple) and v and v[0] in ("vec", "list") else None)
             if items is not None:
-                if str(n.get("ty")) == "std::string::String" or any("String" in g for g in (n.get("gen") or [])[1:2]):
+                if str(n.get("ty")) == "std::string::String" or (n.get("gen") or [None, None])[1:2] == ["std::string::String"]:
                     return "".join(_s(x) for x in items)
                 return ("vec", list(items))
         if last in ("from_iter",) and len(args) == 1 and "String" in fn:
